@@ -25,6 +25,12 @@ Theorem C06_L3_done_prefix : forall c k, wf_carrier c -> k < len (ser_unit c) ->
 Proof. exact done_prefix. Qed.
 Print Assumptions C06_L3_done_prefix.
 
+(* the common carrier (pointer_field + filler + the section): false on EVERY proper prefix, no exception *)
+Theorem C06_L3_done_prefix_no_pre : forall c k, wf_carrier c -> pre c = [] -> k < len (ser_unit c) ->
+  done_func (takeN k (ser_unit c)) = Ok false.
+Proof. exact done_prefix_no_pre. Qed.
+Print Assumptions C06_L3_done_prefix_no_pre.
+
 (* ... and true on the complete payload followed by any amount of stuffing *)
 Theorem C06_L3_done_complete : forall c, wf_carrier c -> done_func (ser_payload c) = Ok true.
 Proof. exact done_complete. Qed.
@@ -42,6 +48,14 @@ Theorem C06_L4_read_pmt : forall c pid items,
   read_pmt (packetise pid items) pid = Ok (sec_result (sec c)).
 Proof. exact read_pmt_ok. Qed.
 Print Assumptions C06_L4_read_pmt.
+
+(* without preceding sections EVERY split is a packetisation: no condition on the cut points *)
+Theorem C06_L4_read_pmt_any_split : forall c pid items,
+  wf_carrier c -> pre c = [] -> sstreams (sec c) <> [] -> Forall (wf_item pid) items ->
+  (exists n, concat (chunks items) = ser_unit c ++ repeatN 255 n) ->
+  read_pmt (packetise pid items) pid = Ok (sec_result (sec c)).
+Proof. exact read_pmt_any_split. Qed.
+Print Assumptions C06_L4_read_pmt_any_split.
 
 (* K1 (known finding, by design of ReadPMT): with an EMPTY stream list every other hypothesis of L4 holds, the
    payload parses (L2), and the reader still answers ErrPMTNotFound.  So L4 cannot drop `sstreams <> []`. *)
